@@ -201,52 +201,78 @@ theorem O1_overflow_every_env (env : Env) (head : Bool) :
 /-- "…exactly one response, to the request's connection", across restarts: for every schedule of arrivals, picks, emits,
     `stop()` and `start()` calls on one `HttpServer` object, every engine command reaches the transport its request arrived
     on (a command of a request that arrived on an earlier transport is dropped, never delivered to the current one).  The
-    worker is the one the translator found (`Gen.dispatchChecksGeneration`). -/
+    worker is the one the translator found: do its guards compare an epoch (`Gen.dispatchChecksGeneration`), and is that
+    epoch read by `handleIncomingData` and captured by value, or only when a worker starts the task
+    (`Gen.epochCapturedAtDispatch`). -/
 def O1_restart_statement : Prop :=
-  ∀ (P : Params) (steps : List RStep), LogSameGen (runR Gen.HttpRespond.dispatchChecksGeneration P {} steps).log
+  ∀ (P : Params) (steps : List RStep),
+    LogSameGen (runR (EpochCheck.ofFacts Gen.HttpRespond.dispatchChecksGeneration Gen.HttpRespond.epochCapturedAtDispatch) P {} steps).log
 
-/-- FC16e, repaired: since the worker compares the transport epoch captured at dispatch inside every guarded block
-    (`Gen.dispatchChecksGeneration`, 7 guards, `start()` advances the epoch under `_mutex`), the statement holds for every
-    schedule — handlers that outlive `stop()`'s bounded drain wait (`Gen.stopDrainSeconds` s) and any number of restarts
-    included.  On the unrepaired tree the fact is false and this theorem does not build. -/
+/-- FC16e, repaired: since the worker compares, inside every guarded block (7 guards, `start()` advances the epoch under
+    `_mutex`), the transport epoch that `handleIncomingData` read AT DISPATCH and the pool lambda captured by value, the
+    statement holds for every schedule — handlers that outlive `stop()`'s bounded drain wait (`Gen.stopDrainSeconds` s),
+    requests still QUEUED in the pool across `stop()` + `start()`, and any number of restarts included.  On a tree whose
+    guards do not check, or whose lambda reads the epoch only when the task starts, the facts differ and this theorem does
+    not build. -/
 theorem O1_restart : O1_restart_statement := by
   intro P steps
-  have hg : Gen.HttpRespond.dispatchChecksGeneration = true := by decide
-  rw [hg]
-  exact runR_guarded_log P {} steps (by intro e h; cases h)
+  have hk : EpochCheck.ofFacts Gen.HttpRespond.dispatchChecksGeneration Gen.HttpRespond.epochCapturedAtDispatch = .atDispatch := by decide
+  rw [hk]
+  exact runR_dispatch_log P {} steps (by intro t h; cases h) (by intro e h; cases h)
 
-/-- What the repair prevents (the unrepaired worker, `guarded = false`): `stop()` gives up on a running handler, the task
+/-- What the repair prevents, first half (the worker without any check): `stop()` gives up on a running handler, the task
     survives in the pool, `start()` installs a fresh transport whose engine numbers sessions from 1 again, and the late
     worker's `sendAsync(sid, …)` passes the `_transport && !_shutdown` guard.  Witness: a request arrives on session 1, a
     worker takes it, `stop()`, `start()`, the worker sends: the command of a generation-0 request is delivered by the
     generation-1 transport — to whoever holds session id 1 there. -/
 theorem O1_restart_unguarded_refuted :
-    ¬ ∀ (P : Params) (steps : List RStep), LogSameGen (runR false P {} steps).log := by
+    ¬ ∀ (P : Params) (steps : List RStep), LogSameGen (runR .none P {} steps).log := by
   intro h
   have := h { w := 2, qcap := 1024, respond := fun _ _ => [.send [65]] } [.arrive 1 [], .pick, .stop, .start, .emit 0]
     ⟨1, 0, 1, .send [65]⟩ (by decide +kernel)
   revert this
   decide
 
+/-- Second half (seed C16-e): guards that compare an epoch read only when a worker STARTS the task protect the request that
+    was already running at `stop()`, not the one still queued.  Witness, the twin of the first with the pick after the
+    restart: a request arrives on session 1 and stays in the queue (all workers busy), `stop()` gives up, `start()`, a freed
+    worker takes the task and reads the NEW epoch, every guard passes: again a generation-0 request answered by the
+    generation-1 transport. -/
+theorem O1_restart_epoch_at_task_start_refuted :
+    ¬ ∀ (P : Params) (steps : List RStep), LogSameGen (runR .atTaskStart P {} steps).log := by
+  intro h
+  have := h { w := 2, qcap := 1024, respond := fun _ _ => [.send [65]] } [.arrive 1 [], .stop, .start, .pick, .emit 0]
+    ⟨1, 0, 1, .send [65]⟩ (by decide +kernel)
+  revert this
+  decide
+
+/-- … while it does protect the running request: on the first witness schedule the task-start worker logs nothing -/
+example : (runR .atTaskStart { w := 2, qcap := 1024, respond := fun _ _ => [.send [65]] } {}
+    [.arrive 1 [], .pick, .stop, .start, .emit 0]).log = [] := by decide +kernel
+
 /-- Partial: if `start()` is only ever called when no task of the previous run is left (the drain wait of `stop()` did not
-    expire), every command reaches the transport its request arrived on — for every schedule and either worker. -/
-theorem O1_restart_partial_drained (g : Bool) (P : Params) (steps : List RStep) (hd : StartsDrained g P {} steps) :
+    expire), every command reaches the transport its request arrived on — for every schedule and each of the three workers. -/
+theorem O1_restart_partial_drained (g : EpochCheck) (P : Params) (steps : List RStep) (hd : StartsDrained g P {} steps) :
     LogSameGen (runR g P {} steps).log :=
   runR_drained g P {} steps hd (by intro t h; cases h) (by intro e h; cases h)
 
-example : StartsDrained false { w := 2, qcap := 4, respond := fun _ _ => [.send [65]] } {}
+example : StartsDrained .none { w := 2, qcap := 4, respond := fun _ _ => [.send [65]] } {}
     [.arrive 1 [], .pick, .emit 0, .stop, .start, .arrive 1 [], .pick, .emit 0] :=
   ⟨trivial, trivial, trivial, trivial, rfl, trivial, trivial, trivial, trivial⟩
 
-/-- a command of a stale task is dropped, not redirected: after the witness schedule the log of the repaired worker is empty -/
-example : (runR true { w := 2, qcap := 1024, respond := fun _ _ => [.send [65]] } {}
-    [.arrive 1 [], .pick, .stop, .start, .emit 0]).log = [] := by decide +kernel
+/-- a command of a stale task is dropped, not redirected: after BOTH witness schedules (picked before the restart, picked after
+    it) the log of the repaired worker is empty -/
+example : (runR .atDispatch { w := 2, qcap := 1024, respond := fun _ _ => [.send [65]] } {}
+    [.arrive 1 [], .pick, .stop, .start, .emit 0]).log = [] ∧
+    (runR .atDispatch { w := 2, qcap := 1024, respond := fun _ _ => [.send [65]] } {}
+    [.arrive 1 [], .stop, .start, .pick, .emit 0]).log = [] := by decide +kernel
 
 /-- Gen conformance for the two restart facts and the write-queue bound `start()` hands to the transport: the session write
     queue holds at least one response per task the pool can queue (a slow reader on a keep-alive connection is not closed by
     back-pressure before the pool itself pushes back). -/
 theorem gen_restart_and_write_queue :
-    Gen.HttpRespond.dispatchChecksGeneration = true ∧ Gen.HttpRespond.stopDrainSeconds = 2 ∧
+    Gen.HttpRespond.dispatchChecksGeneration = true ∧ Gen.HttpRespond.epochCapturedAtDispatch = true ∧
+    Gen.HttpRespond.stopDrainSeconds = 2 ∧
     Gen.HttpRespond.poolQueueCap ≤ Gen.HttpRespond.maxWriteQueue := by decide
 
 /-! ## O2 — responses never interleave -/
